@@ -394,29 +394,43 @@ def _r5(ctx):
         ctx.violated(pa, u, "running maximum update is not 'if |x| > max: max = |x|' on one and the same x: it could decrease or "
                      "take a wrong value")
     ps = prog.func(D + "_hcm_process_sample")
-    from ._hcm import require_recognised_dispatch
-    require_recognised_dispatch(ps)
-    mem3 = [s for s in walk_function(ps.node) if isinstance(s, ast.If) and any(
-        isinstance(c.func, ast.Attribute) and c.func.attr == "_handle_case_a_i" for x in s.body
-        if not isinstance(x, (ast.If, ast.While)) for c in calls_in(x))]
-    if len(mem3) != 1:
-        raise AnalysisError("_hcm_process_sample: Memory-3 branch not found")
-    same = False
-    if isinstance(g, ast.If):
-        from ..sibling import rename as _rn
-        call0 = [s for s in loop.body if isinstance(s, ast.Assign) and isinstance(s.value, ast.Call) and
-                 isinstance(s.value.func, ast.Attribute) and s.value.func.attr == "_hcm_process_sample"]
-        kwmap = {}
-        if call0:
-            for k in call0[0].value.keywords:
-                if isinstance(k.value, ast.Name):
-                    kwmap[k.value.id] = k.arg       # caller's local -> callee's parameter name
-        same = norm_text(mem3[0].test) == norm_text(_rn(g.test, kwmap))
-    if same:
-        ctx.holds(ps, mem3[0], "Memory-3 test uses the same expression as the maximum update")
+    from ._hcm import require_recognised_dispatch, Restructured, dispatch_by_model
+    restructured = False
+    try:
+        require_recognised_dispatch(ps)
+    except Restructured:
+        restructured = True
+    from ..sibling import rename as _rn
+    call0 = [s for s in loop.body if isinstance(s, ast.Assign) and isinstance(s.value, ast.Call) and
+             isinstance(s.value.func, ast.Attribute) and s.value.func.attr == "_hcm_process_sample"]
+    kwmap = {}
+    if call0:
+        for k in call0[0].value.keywords:
+            if isinstance(k.value, ast.Name):
+                kwmap[k.value.id] = k.arg       # caller's local -> callee's parameter name
+    guard_text = norm_text(_rn(g.test, kwmap)) if isinstance(g, ast.If) else None
+    if restructured:
+        # the Memory-3 test as the abstract execution of the dispatch classified it (locals substituted)
+        preds = dispatch_by_model(ctx, prog, "R-C04-5", "Memory 3 / maximum bookkeeping")
+        m3 = preds.get("NEWMAX")
+        odd = [k for k in preds if k.startswith("NEWMAX?")]
+        if m3 is not None and guard_text == m3 and not odd:
+            ctx.holds(ps, ps.node, "Memory-3 test uses the same expression as the maximum update")
+        else:
+            ctx.violated(ps, ps.node, "Memory-3 test %s differs from the maximum update guard %s: a load equal to the old maximum "
+                         "could be classified inconsistently" % (m3 or [preds[k] for k in odd], guard_text), text="memory-3 guard")
     else:
-        ctx.violated(ps, mem3[0], "Memory-3 test %s differs from the maximum update guard %s: a load equal to the old maximum "
-                     "could be classified inconsistently" % (norm_text(mem3[0].test), norm_text(g.test) if isinstance(g, ast.If) else None))
+        mem3 = [s for s in walk_function(ps.node) if isinstance(s, ast.If) and any(
+            isinstance(c.func, ast.Attribute) and c.func.attr == "_handle_case_a_i" for x in s.body
+            if not isinstance(x, (ast.If, ast.While)) for c in calls_in(x))]
+        if len(mem3) != 1:
+            raise AnalysisError("_hcm_process_sample: Memory-3 branch not found")
+        same = guard_text is not None and norm_text(mem3[0].test) == guard_text
+        if same:
+            ctx.holds(ps, mem3[0], "Memory-3 test uses the same expression as the maximum update")
+        else:
+            ctx.violated(ps, mem3[0], "Memory-3 test %s differs from the maximum update guard %s: a load equal to the old maximum "
+                         "could be classified inconsistently" % (norm_text(mem3[0].test), norm_text(g.test) if isinstance(g, ast.If) else None))
     writes = [s for s in walk_function(ps.node) if isinstance(s, (ast.Assign, ast.AugAssign)) and
               any(isinstance(t, ast.Name) and t.id == "load_max_seen" for t in (s.targets if isinstance(s, ast.Assign) else [s.target]))]
     call = [s for s in loop.body if isinstance(s, ast.Assign) and isinstance(s.value, ast.Call) and
